@@ -371,7 +371,7 @@ pub fn def() -> PropDef {
             name: "optimum",
             rule: "see property rule",
             strategy,
-            cases: (150, 6_000),
+            cases: (250, 8_000),
             exhaustive: Some(enumerate),
             exhaustive_note: "all single functions n<=2 (quick) / n<=3 (thorough); all ordered pairs n<=1 / n<=2; 3 optimizers",
             run,
